@@ -473,7 +473,16 @@ func c15Received(r *fw.R, d c15Desc) {
 		}
 		nmsgs++
 	}
-	ping("after")
+	if rng.Bool() {
+		ping("after")
+	} else if d.Reader == "CloseRead" {
+		// the last Ping is followed, in the same transport write, by a frame that makes the endpoint write nothing
+		frames = append(frames, wire.Pong([]byte("trailing unsolicited pong")))
+		r.Count("ping_streams_that_end_with_a_frame_that_needs_no_answer", 1)
+	} else {
+		// (the stream ends with the last message: the Pings inside it are the last thing the endpoint has to answer)
+		r.Count("ping_streams_that_end_with_a_frame_that_needs_no_answer", 1)
+	}
 	slens := lens
 	if len(slens) > 40 {
 		slens = slens[:40]
@@ -524,9 +533,20 @@ func c15Received(r *fw.R, d c15Desc) {
 	wg.Add(1)
 	go func() {
 		defer wg.Done()
-		for _, f := range frames {
+		// (the last frames travel in ONE transport write: whatever follows the last Ping is then already in the
+		// endpoint's read buffer when it answers that Ping)
+		tail := 4
+		if len(frames) < tail {
+			tail = len(frames)
+		}
+		for _, f := range frames[:len(frames)-tail] {
 			peer.Send(f)
 		}
+		var last []byte
+		for _, f := range frames[len(frames)-tail:] {
+			last = append(last, peer.Mask(f).Bytes()...)
+		}
+		peer.SendBytes(last)
 	}()
 	wg.Wait()
 	ok := peer.Wait(15*time.Second, func() bool { return len(peer.Conf.Pongs) >= len(want) })
